@@ -455,12 +455,14 @@ func (c connectStreamClientProtocol) encodeEnd(op *operation, end *responseEnd, 
 		buffer.WriteString(`{"error": {"code": "internal", "message": ` + strconv.Quote(err.Error()) + `}}`)
 	}
 	// TODO: compress?
-	length := buffer.Len()
-	limit := op.methodConf.maxMsgBufferBytes
-	if length > int(limit) {
+	length := int64(buffer.Len())
+	if length > math.MaxUint32 {
 		return nil
 	}
-	env := envelope{trailer: true, length: uint32(buffer.Len())} //nolint:gosec // Length is validated above.
+	// The end-of-stream message is already in memory at this point, so it is
+	// not subject to the message buffer limit: dropping it would leave the
+	// stream without any result.
+	env := envelope{trailer: true, length: uint32(length)}
 	envBytes := c.encodeEnvelope(env)
 	_, _ = writer.Write(envBytes[:])
 	_, _ = buffer.WriteTo(writer)
